@@ -7,7 +7,11 @@ import Bptk.Core.PyWire
    `Bptk.C04.run_natTS_eq_euler`).
 `chk|<elem>|…|#|<wire tokens of equation 0>|<wire tokens of equation 1>|…`  →  `ok` or `diff <i>`
    does the Python text the real compiler emitted for equation i denote `compile M i`?
-elem:  `stock <ex> ; <ins> ; <outs>` | `flow <0|1> <ex>` | `aux <ex>` | `gf <ex> ; x:y,x:y,…`
+`skel|<nin>|<nout>|<wire tokens>`  →  `ok` or `diff`
+   are the tokens the real StockExpressions+parseExpression emitted for a stock with nin inflows and nout
+   outflows exactly the intended text (`skeletonTextOK`; by `skeletonTextOK_sound` they then parse to the
+   skeleton and denote the model's stock code — any nin, nout)?
+elem:  `stock <ex> ; <ins> ; <outs>` | `nnstock <ex> ; <ins> ; <outs>` (non-negative stock) | `gflow <0|1> <ex> ; x:y,…` (flow defined by a gf) | `flow <0|1> <ex>` | `aux <ex>` | `gf <ex> ; x:y,x:y,…`
 ex (prefix words): `L<hex>~<pytext>` `R<n>` `T` `D` `+ a b` `- a b` `* a b` `/ a b` `M a b` `m a b` `?<cmp> a b x y`
 -/
 open Bptk.C04
@@ -101,6 +105,18 @@ def elemOf (s : String) : Option (Elem Lit) :=
     | _ => none
   | "flow" :: nn :: rest => (exOfWords rest).map (fun e => .flow (nn == "1") e)
   | "aux" :: rest => (exOfWords rest).map .aux
+  | "nnstock" :: rest =>
+    match (" ".intercalate rest).splitOn ";" with
+    | [e, i, o] => match exOfWords (words e), natList i, natList o with
+      | some e, some i, some o => some (xStock true e i o)
+      | _, _, _ => none
+    | _ => none
+  | "gflow" :: nn :: rest =>
+    match (" ".intercalate rest).splitOn ";" with
+    | [e, p] => match exOfWords (words e), ptsOf p with
+      | some e, some p => some (.gflow (nn == "1") e p)
+      | _, _ => none
+    | _ => none
   | "gf" :: rest =>
     match (" ".intercalate rest).splitOn ";" with
     | [e, p] => match exOfWords (words e), ptsOf p with
@@ -125,6 +141,7 @@ def Bptk.C04.Elem.mapLit {α β : Type} (f : α → β) : Elem α → Elem β
   | .flow nn e => .flow nn (e.mapLit f)
   | .aux e => .aux (e.mapLit f)
   | .gf e p => .gf (e.mapLit f) (p.map fun q => (f q.1, f q.2))
+  | .gflow nn e p => .gflow nn (e.mapLit f) (p.map fun q => (f q.1, f q.2))
 
 def showRows (rows : List (List (Option Float))) : String :=
   ";".intercalate (rows.map fun r => ",".intercalate (r.map fun v => match v with
@@ -140,6 +157,10 @@ def handle (line : String) : String :=
       let M : Model Float := { elems := es.map (Elem.mapLit (·.1)), dtv := dt }
       let tv := fun k => g.getD k 0.0
       showRows (simulate floatCarrier M tv (g.length - 1))
+    | _, _, _ => "bad-op"
+  | ["skel", ni, no, toks] =>
+    match ni.trimAscii.toString.toNat?, no.trimAscii.toString.toNat?, Bptk.Py.toksOfWords (words toks) with
+    | some ni, some no, some ts => if skeletonTextOK ni no ts then "ok" else "diff"
     | _, _, _ => "bad-op"
   | "chk" :: rest =>
     let elems := rest.takeWhile (· ≠ "#")
